@@ -33,6 +33,9 @@ REQUIRED_CLASSES = ["nontrivial", "has_amp", "has_lt", "has_gt", "has_quot", "ha
 QUICK_SHARDS = 4
 
 text_utils = sut.load("text_utils")
+OPTION_PROBES = [(text_utils.xml_escape, ["input_text"], ["Layer \"1\" & 'notes' <x>"]),
+                 (text_utils.format_hms, ["duration", "milliseconds"], [3725.4])]
+
 ENTITIES = ["&amp;", "&lt;", "&gt;", "&quot;", "&apos;"]
 SPECIALS = "&<>\"'"
 
